@@ -33,6 +33,11 @@ inductive Mem where
   | none | live | freed
   deriving Repr, DecidableEq
 
+/-- ghost: how a context identity came into being -/
+inductive Origin where
+  | none | listener | accepted | handed
+  deriving Repr, DecidableEq
+
 structure Ctx where
   mem        : Mem := .none
   ref        : Nat := 0          -- ctx.ref_cnt
@@ -54,6 +59,7 @@ structure Ctx where
   -- ghost
   held       : Nat := 0          -- retains currently held by worker threads
   regFailed  : Bool := false     -- freed on the accept-time registration-failure path
+  origin     : Origin := .none
   deriving Repr
 
 structure St where
@@ -259,7 +265,7 @@ def runExit (s : St) : Except Err St := do
 /-- a new connection completes the handshake (identity = next free id) -/
 def connect (s : St) (allocOk : Bool) : St :=
   let c := s.n
-  { (s.set c { fdOpen := true }) with n := s.n + 1, backlog := s.backlog ++ [(c, allocOk)] }
+  { (s.set c { fdOpen := true, origin := .accepted }) with n := s.n + 1, backlog := s.backlog ++ [(c, allocOk)] }
 
 /-- the peer writes; bytes written after the server side closed its descriptor go nowhere -/
 def send (s : St) (c : Nat) (bytes : List Nat) : St :=
@@ -298,7 +304,7 @@ def workerRelease (s : St) (c : Nat) : Except Err St := do
 /-- another thread creates a connected context (ref 1) and calls `muggle_socket_evloop_add_ctx` -/
 def handOver (s : St) : St :=
   let c := s.n
-  { (s.set c { mem := .live, ref := 1, fdOpen := true }) with n := s.n + 1, queue := s.queue ++ [c] }
+  { (s.set c { mem := .live, ref := 1, fdOpen := true, origin := .handed }) with n := s.n + 1, queue := s.queue ++ [c] }
 
 /-! ## histories -/
 
@@ -335,7 +341,7 @@ def run (s : St) : List Act → Except Err St
 
 /-- initial state: a listener (identity 0) registered before the loop starts -/
 def init (cap : Option Nat) (fixed : Bool) : St :=
-  { ctx := upd (fun _ => {}) 0 { mem := .live, ref := 1, fdOpen := true, isListener := true },
+  { ctx := upd (fun _ => {}) 0 { mem := .live, ref := 1, fdOpen := true, isListener := true, origin := .listener },
     n := 1, reg := [0], cap := cap, fixed := fixed }
 
 /-- the acts of one quiescing run of the loop in a canonical order (wake first, then the
